@@ -44,6 +44,34 @@ theorem of64_lane64 (a : Reg) (k : Nat) : of64 (lane64 a) k = a k := by
   · have : 2 * (k / 2) + 1 = k := by omega
     simp [h, this, hi32_append]
 
+/-! SSE2 integer abs: `(x ^^^ (x >>s 31)) - (x >>s 31)` is the two's complement absolute value -/
+theorem ones_bits : ∀ i, i < 32 → (4294967295#32).getLsbD i = true := by decide
+theorem sshift31 (x : BitVec 32) : x.sshiftRight 31 = if x.msb then 4294967295#32 else 0#32 := by
+  apply BitVec.eq_of_getLsbD_eq; intro i hi
+  rw [BitVec.getLsbD_sshiftRight]
+  have hd : decide (32 ≤ i) = false := by simp; omega
+  rw [hd]
+  have hm31 : x.getLsbD 31 = x.msb := by rw [BitVec.msb_eq_getLsbD_last]
+  have hm31' : x[31] = x.msb := by rw [← BitVec.getLsbD_eq_getElem]; exact hm31
+  by_cases h0 : i = 0
+  · subst h0
+    cases hm : x.msb
+    · rw [hm] at hm31'; simp [hm31']
+    · rw [hm] at hm31'; simp [hm31']
+  · have : ¬ (31 + i < 32) := by omega
+    cases hm : x.msb
+    · simp [this]
+    · simp only [this, if_false, if_true, Bool.not_false, Bool.true_and]; exact (ones_bits i hi).symm
+theorem abs_by_sign (x : BitVec 32) : (x ^^^ x.sshiftRight 31) - x.sshiftRight 31 = abs32 x := by
+  unfold abs32
+  rw [sshift31, BitVec.slt_zero_eq_msb]
+  cases h : x.msb
+  · simp
+  · simp only [if_true]
+    have : (4294967295#32) = BitVec.allOnes 32 := by decide
+    rw [this, BitVec.xor_allOnes, BitVec.neg_eq_not_add, BitVec.sub_eq_add_neg]
+    congr 1
+
 attribute [simd] map32 zip32 zip64 map64 low32 low64 setzero set1_32 set1_64 setr32 setr64 set32 set64
   add_epi32 sub_epi32 mullo_epi32 add_epi64 sub_epi64 mullo_epi64 mul_epu32 and_si or_si xor_si andnot_si
   srai_epi32 srli_epi32 slli_epi32 abs_epi32 abs_epi64 min_epi32 max_epi32 min_epi64 max_epi64 slli_si128
